@@ -434,6 +434,12 @@ pub fn gen_c04(run: &mut Run, seed: u64, thorough: bool) {
             let own = i.chain.clone();
             let p = transfer_payload(&env, &own, &tid, b"0xsrc", &dest, 7, None);
             i.deliver(&p, "origin-is-own-chain-name");
+            // names that only LOOK like the trusted "ethereum": NUL / blank padded, a prefix, an extension, another case
+            for (o, nm) in [(&b"ethereum\0"[..], "nul-padded"), (b"ethereum\0\0\0", "nul-padded-3"), (b"\0ethereum", "nul-prefixed"), (b"ethereum ", "blank-padded"), (b" ethereum", "blank-prefixed"), (b"ethereu", "prefix"), (b"ethereumm", "extension"), (b"Ethereum", "capitalised"), (b"ETHEREUM", "upper-case"), (b"ethereum\n", "newline-padded")] {
+                let p = transfer_payload(&env, o, &tid, b"0xsrc", &dest, 7, None);
+                i.deliver(&p, &format!("origin-lookalike-{nm}"));
+            }
+            i.sweep(&holders);
             i.op(&format!("its.remove_trusted {} {}", hx(b"avalanche"), i.owner.tok()), "remove-trusted");
             let removed = transfer_payload(&env, b"avalanche", &tid, b"0xsrc", &dest, 7, None);
             i.deliver(&removed, "origin-untrusted-again");
@@ -661,7 +667,8 @@ pub fn gen_c05(run: &mut Run, seed: u64, thorough: bool) {
                         _ => (i.g.rng.range(1, 40) as i128, "amt-small"),
                     };
                     let with_data = i.g.rng.chance(1, 3);
-                    let to = if with_data && i.g.rng.chance(2, 3) { recv.clone() } else { i.g.rng.pick(&users).clone() };
+                    // now and then the recipient is the SERVICE's own address (mint to it / release to itself)
+                    let to = if with_data && i.g.rng.chance(2, 3) { recv.clone() } else if i.g.rng.chance(1, 8) { i.its.clone() } else { i.g.rng.pick(&users).clone() };
                     let data = if with_data { Some(i.g.rng.bytes(4)) } else { None };
                     let hubname = i.hub_chain.clone();
                     let origin: &[u8] = match i.g.rng.below(16) { 0 => b"polygon", 1 => &hubname, 2 => b"Avalanche-Fuji", _ => b"ethereum" };
@@ -714,6 +721,17 @@ pub fn gen_c05(run: &mut Run, seed: u64, thorough: bool) {
                 }
                 i.sweep(&holders);
             }
+        }
+        // directed: the service itself as recipient of an inbound transfer, for every token (native, canonical, native registered
+        // as canonical): what it holds afterwards is what the equations say, and can be released again
+        for (tid, kind) in ids.clone() {
+            let me = i.its.clone();
+            let p = transfer_payload(&env, b"ethereum", &tid, b"0xRemoteSender", &addr_xdr(&env, &me), 5, None);
+            i.deliver(&p, &format!("inbound-{kind}-directed-recipient-is-service"));
+            i.sweep(&holders);
+            let p = transfer_payload(&env, b"ethereum", &tid, b"0xRemoteSender", &addr_xdr(&env, &users[0]), 5, None);
+            i.deliver(&p, &format!("inbound-{kind}-directed-after-recipient-is-service"));
+            i.sweep(&holders);
         }
         // directed: a canonical wrapper around a transfer message that is not canonically encoded, for a token of each kind
         for (tid, kind) in [(ids[0].0, ids[0].1), (ids[2].0, ids[2].1)] {
@@ -1002,6 +1020,16 @@ pub fn gen_c18(run: &mut Run, seed: u64, thorough: bool) {
         for (k, (name, sym, dec, label)) in shapes.iter().enumerate() {
             let a = Addr::c(200 + k as u8);
             i.op(&format!("ctok.new {} {} {} {}", a.tok(), hx(name), hx(sym), dec), "env-custom-token");
+            i.tokens.push(a.clone());
+            i.register(&a, &format!("register-custom-{label}"));
+            customs.push((a, label));
+        }
+        // third-party tokens whose answers change on re-reading (6 then 300; "Steady" then "Shifty"): whoever reads once
+        // announces the first answer
+        for (k, (altname, altsym, altdec, label)) in [(&b"Steady"[..], &b"STD"[..], 300u32, "shifty-decimals-300"), (b"Shifty", b"STD", 6, "shifty-name"), (b"Steady", b"SHF", 6, "shifty-symbol"), (b"Steady", b"STD", 9, "shifty-decimals-9")].iter().enumerate() {
+            let a = Addr::c(230 + k as u8);
+            i.op(&format!("ctok.new {} {} {} 6", a.tok(), hx(b"Steady"), hx(b"STD")), "env-custom-token");
+            i.op(&format!("ctok.shifty {} {} {} {}", a.tok(), hx(altname), hx(altsym), altdec), "env-custom-token-shifty");
             i.tokens.push(a.clone());
             i.register(&a, &format!("register-custom-{label}"));
             customs.push((a, label));
